@@ -369,3 +369,35 @@ def memo_rule(ctx, rule: str, module_suffixes: Sequence[str]) -> None:
         ctx.rep.inconclusive(rule, "fixture/memo", "embedded positive fixture (cached mutable result + incomplete memo key) was not detected: rule is broken")
     elif n == 0:
         ctx.rep.holds(rule, "no-behaviour-changing-cache", f"{len(funcs)} functions in {list(module_suffixes)}: no cache decorator on a builder of mutable results, no memo table with an incomplete key (fixture detected)")
+
+
+# ------------------------------------------------------------------ negative computed slice bounds
+def negative_slice_rule(ctx, rule: str, module_suffixes: Sequence[str]) -> int:
+    """`x[a:-n]` is the empty slice for n == 0 (not "everything from a"): every slice bound of the form -<expression> needs
+    a fact n >= 1 at that point, or the idiom `-n or None`.  Returns the number of such bounds examined."""
+    n_sites = 0
+    for f in ctx.prog.all_functions():
+        if not f.module.relpath.endswith(tuple(module_suffixes)):
+            continue
+        fv = None
+        for node_ast in own_walk(f.node):
+            if not (isinstance(node_ast, ast.Subscript) and isinstance(node_ast.ctx, ast.Load)):
+                continue
+            slices = [node_ast.slice] if isinstance(node_ast.slice, ast.Slice) else [e for e in getattr(node_ast.slice, "elts", []) if isinstance(e, ast.Slice)]
+            for sl in slices:
+                for bound in (sl.lower, sl.upper):
+                    if isinstance(bound, ast.UnaryOp) and isinstance(bound.op, ast.USub) and not isinstance(bound.operand, ast.Constant):
+                        n_sites += 1
+                        fv = fv or ctx.fv(f)
+                        at = fv.node_of(node_ast)
+                        x = fv.res.resolve(bound.operand, at)
+                        px = to_poly(x)
+                        ok = False
+                        for cmpf, atom, pol, br in cmp_facts(fv, at):
+                            if cmpf == Cmp(px - Poly.const(1), ">=") or cmpf == Cmp(px, ">") or cmpf == Cmp(px, "!="):
+                                ok = True
+                        ctx.rep.touch(f)
+                        ctx.rep.check(ok, rule, f"{f.qualname}/[{ast.unparse(sl)[:30]}]", f"slice bound -{show(bound.operand)[:20]} is used only where it is >= 1",
+                                      f"`{ast.unparse(node_ast)[:60]}`: when `{show(bound.operand)[:30]}` is 0 the bound -0 selects nothing (instead of everything up to the end), "
+                                      "and nothing here establishes that it is at least 1 (use `-n or None`)", where=f.where(node_ast))
+    return n_sites
